@@ -46,7 +46,7 @@ def _write_node_attributes(m: nx.Graph) -> str:
         available_attrs = [
             f"{_SERIALIZER_NODE_ATTRIBUTE_MAPPING[attr]}={attrs[attr]}"
             for attr in _SERIALIZER_NODE_ATTRIBUTE_MAPPING
-            if attr in attrs
+            if attrs.get(attr)  # explicit zeros (e.g., MASS=0 in a molfile) mean "not set"
         ]
         if not available_attrs:
             continue
